@@ -25,6 +25,7 @@ import (
 	"time"
 
 	ssi "github.com/nuts-foundation/go-did"
+	"github.com/nuts-foundation/go-did/vc"
 	"github.com/nuts-foundation/nuts-node/storage"
 	"github.com/nuts-foundation/nuts-node/vcr"
 	"github.com/nuts-foundation/nuts-node/vcr/credential"
@@ -42,11 +43,12 @@ type slot struct {
 }
 
 type issuedCred struct {
-	doc     json.RawMessage
-	id      string
-	slot    slot
-	issuer  iamflow.Subject
-	revoked bool
+	doc                 json.RawMessage
+	id                  string
+	slot                slot
+	issuer              iamflow.Subject
+	revoked             bool
+	issuedAt, revokedAt time.Time // harness clock around the issue / revoke calls (only used to choose validation times)
 }
 
 func entryOf(doc json.RawMessage) (slot, error) {
@@ -170,10 +172,10 @@ func TestCheck(t *testing.T) {
 	r.SetRule("cases: (a) every status-list slot handed out by the node (sequential, 8-32 concurrent issuers' goroutines, across a page roll-over) checked pairwise-distinct and in range; " +
 		"(b) every served list after every revoke/issue step compared with the reference bit set (exactly the revoked slots), signature verified by the node's verifier, expiry margin; " +
 		"(c) every verification verdict of revoked and unrevoked credentials, repeated after unrelated operations, re-signing of the list and a restart of the node; " +
-		"(d) verifier-side cases with harness-served lists: refresh, foreign list id, wrong purpose, bad signature, garbage; credentials with 2-4 credentialStatus entries, the revoked one at every position "+
-		"(list cached / downloaded in that verification), the others clear, missing, 5xx, not JSON, not a credential, bad signature, other subject id, expired, host down, other purpose, other type, index outside the list; "+
-		"(e) fault enumeration under the node's status-list store: for revoke, issue, issue across a roll-over, serve-list (stored / re-issued) a reference run records the SQL statements on status_list*, "+
-		"then each statement fails in turn (gorm callback on the node's DB) and SQLite refuses each kind of write (trigger RAISE(ABORT)); after the fault is cleared: what the node reported (revoked, or after a reported failure the retry) "+
+		"(d) verifier-side cases with harness-served lists: refresh, foreign list id, wrong purpose, bad signature, garbage; credentials with 2-4 credentialStatus entries, the revoked one at every position " +
+		"(list cached / downloaded in that verification), the others clear, missing, 5xx, not JSON, not a credential, bad signature, other subject id, expired, host down, other purpose, other type, index outside the list; " +
+		"(e) fault enumeration under the node's status-list store: for revoke, issue, issue across a roll-over, serve-list (stored / re-issued) a reference run records the SQL statements on status_list*, " +
+		"then each statement fails in turn (gorm callback on the node's DB) and SQLite refuses each kind of write (trigger RAISE(ABORT)); after the fault is cleared: what the node reported (revoked, or after a reported failure the retry) " +
 		"must show in the served list and in verdicts, slots stay unique, lists served under the fault are valid. Distinct by (scenario, issuer/page, step).")
 	r.Require(200, 40)
 	r.Assume("SQLite with a single connection (the only SQL engine in the sandbox): database transactions are serialised, so row-lock behaviour of other engines is not exercised")
@@ -219,7 +221,7 @@ func TestCheck(t *testing.T) {
 			r.Violation("C11/slot/foreign-list", "credential of issuer "+iss.DID+" points at list "+s.list, nil)
 		}
 		slots[s] = id
-		c := &issuedCred{doc: doc, id: id, slot: s, issuer: iss}
+		c := &issuedCred{doc: doc, id: id, slot: s, issuer: iss, issuedAt: time.Now()}
 		creds = append(creds, c)
 		if model[s.list] == nil {
 			model[s.list] = map[int]bool{}
@@ -389,7 +391,7 @@ func TestCheck(t *testing.T) {
 			return
 		}
 		mu.Lock() // revocations run concurrently in the steps below
-		c.revoked = true
+		c.revoked, c.revokedAt = true, time.Now()
 		model[c.slot.list][c.slot.index] = true
 		mu.Unlock()
 		r.Count("revocations", 1)
@@ -514,7 +516,7 @@ func TestCheck(t *testing.T) {
 	// (e) faults under the status-list store: every SQL statement of revoke / issue / roll-over / serve-list fails in turn
 	faultMatrix(&faultEnv{r: r, n: n, db: db, f: flt, issuers: issuers, tryIssue: tryIssue, revoke: revoke,
 		markRevoked: func(c *issuedCred) {
-			c.revoked = true
+			c.revoked, c.revokedAt = true, time.Now()
 			model[c.slot.list][c.slot.index] = true
 			r.Count("revocations", 1)
 		},
@@ -547,8 +549,32 @@ func TestCheck(t *testing.T) {
 	checkLists("after-faults")
 	checkVerdicts("after-faults", 10)
 
+	// (f) validation time: revoked credentials asked for at times before / at / after their revocation, over every route that takes a time
+	tp := &timeProbe{r: r, n: n, v: node.Engine[vcr.VCR](n)}
+	if tp.v == nil {
+		r.Fatalf("VCR engine not found")
+	}
+	{
+		probed := map[bool]int{}
+		for _, i := range rnd.Perm(len(creds)) {
+			c := creds[i]
+			if probed[c.revoked] >= map[bool]int{true: r.Pick(4, 24), false: r.Pick(2, 6)}[c.revoked] {
+				continue
+			}
+			probed[c.revoked]++
+			rev := c.revokedAt
+			if !c.revoked {
+				rev = time.Now()
+			}
+			tp.probe("status-list", "after-faults", c.doc, holder, c.revoked, validationTimes(c.issuedAt, rev), "")
+		}
+		if probed[true] == 0 {
+			r.Fatalf("no revoked credential to probe at validation times")
+		}
+	}
+
 	// signed revocation documents (the did:nuts network form), with hosted did:web parties so that every forgery can be signed for real
-	signedRevocations(r, n, host)
+	signedRevocations(r, n, host, tp)
 
 	// restart of the node on the same data directory: revocations are permanent
 	dataDir := n.DataDir
@@ -731,7 +757,7 @@ func externalLists(t *testing.T, r *ev.Run, n *node.Node) {
 
 // ---- signed revocation documents ---------------------------------------------------------------------------
 
-func signedRevocations(r *ev.Run, n *node.Node, host *iamflow.DIDHost) {
+func signedRevocations(r *ev.Run, n *node.Node, host *iamflow.DIDHost, tp *timeProbe) {
 	vcrEngine := node.Engine[vcr.VCR](n)
 	if vcrEngine == nil {
 		r.Fatalf("VCR engine not found")
@@ -811,8 +837,31 @@ func signedRevocations(r *ev.Run, n *node.Node, host *iamflow.DIDHost) {
 		rv.Proof = nil
 		return rv
 	}(), c1)
+	// c1 is also put into the node's credential store (and its issuer trusted) so that VCR.Resolve(id, resolveTime) can be asked later
+	resolveID := ""
+	if err := func() error {
+		parsed, err := vc.ParseVerifiableCredential(string(unquote(c1)))
+		if err != nil {
+			return err
+		}
+		if err := vcrEngine.StoreCredential(*parsed, nil); err != nil {
+			return err
+		}
+		if err := vcrEngine.Trust(ssi.MustParseURI("NutsOrganizationCredential"), ssi.MustParseURI(alice.DID)); err != nil {
+			return err
+		}
+		at := time.Now()
+		_, err = vcrEngine.Resolve(ssi.MustParseURI(id1), &at)
+		return err
+	}(); err == nil {
+		resolveID = id1
+	} else {
+		r.Count("resolve_route_unavailable", 1)
+		r.Extra("resolve_route_unavailable_reason", err.Error())
+	}
+	genuine := revocation(alice, alice.DID, id1)
 	// genuine revocation: effective and permanent; arriving before the credential was ever seen
-	if err := register(revocation(alice, alice.DID, id1)); err != nil {
+	if err := register(genuine); err != nil {
 		r.Violation("C11/revocation/genuine-refused", "revocation by the credential's issuer refused: "+err.Error(), nil)
 	}
 	if err := register(revocation(alice, alice.DID, id2)); err != nil { // c2 has not been presented to the node yet
@@ -831,6 +880,11 @@ func signedRevocations(r *ev.Run, n *node.Node, host *iamflow.DIDHost) {
 	if ok, msg := verifyVC(n, c3); !ok {
 		r.Violation("C11/verdict/unrevoked-fails", "credential of the same issuer that was never revoked does not verify: "+msg, nil)
 	}
+	// the same verdicts asked for at explicit validation times around the revocation's own date
+	times := validationTimes(now.Add(-time.Minute), genuine.Date)
+	tp.probe("signed-revocation", "seen-before", c1, subject, true, times, resolveID)
+	tp.probe("signed-revocation", "revocation-arrived-first", c2, subject, true, times, "")
+	tp.probe("signed-revocation", "never-revoked", c3, subject, false, times, "")
 	r.Count("hosted_did_documents_served", host.Served())
 	r.Sample(map[string]any{"scenario": "signed-revocations", "forged": r.Get("forged_revocations"), "did_documents_served": host.Served()})
 }
